@@ -23,6 +23,7 @@ def assembleNoInc (ss0 : List Stmt) : Outcome Assembly :=
       | some ss2 =>
         match pcrLoop (ss2.length + 1) ss2 with
         | .ok ss3 =>
+          if !orgOK ss3 false then .diag else
           match assignAddrs ss3 0 with
           | .ok ss4 =>
             match fixAll ss4 0 ss4 with
